@@ -280,6 +280,43 @@ func ToValue(n *ttlvref.Node) ttlv.Value {
 	return v
 }
 
+// ToValueShared is ToValue with every byte string a sub-slice of one common buffer, laid out one behind the
+// other in encounter order (as an application cutting nonce || ciphertext || tag or several key parts out of one
+// block would pass them): each slice has spare capacity that is the next value's memory. It returns the buffer
+// so that the caller can verify that encoding left it untouched.
+func ToValueShared(n *ttlvref.Node) (ttlv.Value, []byte) {
+	var arena []byte
+	var collect func(x *ttlvref.Node)
+	collect = func(x *ttlvref.Node) {
+		if x.Type == ttlvref.ByteString {
+			arena = append(arena, x.B...)
+		}
+		for _, k := range x.Kids {
+			collect(k)
+		}
+	}
+	collect(n)
+	arena = append(arena, 0xEE, 0xEE, 0xEE, 0xEE, 0xEE, 0xEE, 0xEE, 0xEE) // sentinel behind the last value
+	off := 0
+	var build func(x *ttlvref.Node) ttlv.Value
+	build = func(x *ttlvref.Node) ttlv.Value {
+		switch x.Type {
+		case ttlvref.Structure:
+			s := ttlv.Struct{}
+			for _, k := range x.Kids {
+				s = append(s, build(k))
+			}
+			return ttlv.Value{Tag: x.Tag, Value: s}
+		case ttlvref.ByteString:
+			b := arena[off : off+len(x.B)]
+			off += len(x.B)
+			return ttlv.Value{Tag: x.Tag, Value: b}
+		}
+		return ToValue(x)
+	}
+	return build(n), arena
+}
+
 // FromValue converts the library's generic value into a reference node.
 // ok=false when the value holds something the generic form cannot hold.
 func FromValue(v ttlv.Value) (*ttlvref.Node, bool) {
